@@ -11,8 +11,8 @@ FILES = ["quantecon/game_theory/lemke_howson.py", "quantecon/game_theory/support
          "quantecon/optimize/pivoting.py", "quantecon/util/combinatorics.py", "quantecon/util/numba.py"]
 
 TOL = Fraction(1e-8)          # NormalFormGame / Player default `tol`
-TOL_PIV = 1e-10
-TOL_RATIO_DIFF = 1e-15
+TOL_PIV = 1e-10            # documented constants of optimize/pivoting.py, PINNED here and in the model
+TOL_RATIO_DIFF = 1e-15     # (QEModel.Pivot.tolPivF / tolRatioDiffF); never read from the library
 ENV = Fraction(1, 10 ** 9)    # rounding envelope for probabilities (model Rat vs code double)
 NEG = Fraction(1, 10 ** 12)   # a probability may be negative by rounding noise only
 MAXIT = 10 ** 6
@@ -534,6 +534,72 @@ def pn_run(ctx, cases, N, nums, kind, tol):
     cases.append(Case(line.replace("C05 pnf", "C05 pn"), impl, nontrivial=(N >= 2 and max(nums) >= 2), tag="pn"))
 
 
+def library_tolerances():
+    """the tolerances the library ACTUALLY uses: module constants and the default arguments of
+    `_lex_min_ratio_test` (through which lemke_howson gets them)"""
+    import inspect
+    from quantecon.optimize import pivoting
+    f = getattr(pivoting._lex_min_ratio_test, "py_func", pivoting._lex_min_ratio_test)
+    sig = inspect.signature(f)
+    return (float(pivoting.TOL_PIV), float(pivoting.TOL_RATIO_DIFF),
+            float(sig.parameters["tol_piv"].default), float(sig.parameters["tol_ratio_diff"].default))
+
+
+def degenerate_run(ctx, cases, count):
+    """highly degenerate games: 4x4, 4x5, 5x4, 5x5 with payoffs in {0,1,2} or {0,1}, often with a
+    duplicated row / column; every initial pivot x capping in {None,1,2,10}; every converged run is
+    judged by the exact Nash oracle and compared bit for bit with the Float model run at the
+    DOCUMENTED tolerances (a changed default tolerance shows here)."""
+    from quantecon.game_theory import lemke_howson
+    rng = ctx.rng
+    tp, td, dtp, dtd = library_tolerances()
+    changed = (tp, td, dtp, dtd) != (TOL_PIV, TOL_RATIO_DIFF, TOL_PIV, TOL_RATIO_DIFF)
+    cases.append(Case("C05 tols", "%s %s" % (fx(dtp), fx(dtd)), nontrivial=False, tag="tols"))
+    if (tp, td) != (dtp, dtd):
+        ctx.notes.append("pivoting.TOL_PIV/TOL_RATIO_DIFF differ from the defaults of _lex_min_ratio_test")
+    for h in range(count):
+        m, n = rng.choice([(4, 4), (4, 5), (5, 4), (5, 5), (5, 5)])
+        hi = rng.choice([2, 2, 1])
+        A = [[float(rng.randint(0, hi)) for _ in range(n)] for _ in range(m)]
+        B = [[float(rng.randint(0, hi)) for _ in range(m)] for _ in range(n)]
+        if rng.random() < 0.3:
+            i, j = rng.sample(range(m), 2); A[i] = list(A[j])
+        if rng.random() < 0.3:
+            i, j = rng.sample(range(n), 2); B[i] = list(B[j])
+        A, B = np.array(A), np.array(B)
+        g = mk_game(A, B)
+        FA, FB = FM(A), FM(B)
+        ctx.count("degen:games")
+        for ip in range(m + n):
+            for cap in (None, 1, 2, 10):
+                NE, res = lemke_howson(g, init_pivot=ip, capping=cap, max_iter=500, full_output=True)
+                ctx.count("degen:lh-calls")
+                if res.converged:
+                    why = nash_defect(FA, FB, F(NE[0]), F(NE[1]))
+                    if why:
+                        ctx.spec_fail("pivot_tolerance_default_changed" if changed else "lemke_howson",
+                                      "converged output on a degenerate integer game is not a Nash equilibrium: " + why
+                                      + (" (library tolerances tol_piv=%r tol_ratio_diff=%r, documented 1e-10 / 1e-15)"
+                                         % (dtp, dtd) if changed else ""),
+                                      {"A": A.tolist(), "B": B.tolist(), "init_pivot": ip, "capping": cap, "max_iter": 500,
+                                       "NE": [NE[0].tolist(), NE[1].tolist()]})
+                impl = "conv=%d iter=%d init=%d x=%s y=%s" % (int(res.converged), res.num_iter, res.init, fxs(NE[0]), fxs(NE[1]))
+                args = "m=%d n=%d A=%s B=%s init=%d maxiter=500 capping=%d tolpiv=%s toldiff=%s" % (
+                    m, n, fxm(A), fxm(B), ip, 500 if cap is None else cap, fx(TOL_PIV), fx(TOL_RATIO_DIFF))
+                cases.append(Case("C05 lhf " + args, impl, nontrivial=res.num_iter >= 3, tag="lhf-degenerate",
+                                  cmp=lambda mo, im, _c=ctx: cmp_lh_degen(_c, mo, im)))
+
+
+def cmp_lh_degen(ctx, mo, im):
+    a, b = kvs(mo), kvs(im)
+    if a["ties"] != "0":
+        ctx.count("degen:runs-with-lexicographic-tie-breaking")
+    for k in ("conv", "iter", "init", "x", "y"):
+        if a[k] != b[k]:
+            return "%s differs between the code and the model at the documented tolerances 1e-10 / 1e-15" % k
+    return None
+
+
 # ----------------------------------------------------------------------------
 # histories on ONE game object: solve / change payoffs / solve again
 
@@ -1027,6 +1093,7 @@ def run(ctx):
                 cross_check(ctx, A, B, se, ve)
 
     indiff_cases(ctx, cases, ctx.n(600, 6000))
+    degenerate_run(ctx, cases, ctx.n(300, 3000))
 
     # solve / mutate / solve histories on one game object
     history_run(ctx, ctx.n(30, 300))
